@@ -41,7 +41,8 @@ pub fn ns() -> &'static Namespace<'static> {
 }
 
 /// A resolver over a finite record list: a Ref resolves to the first record with that `id`; a path
-/// is walked through nested dicts and through Refs.
+/// is walked through nested dicts and through Refs.  A record carrying the marker `blank` is known to
+/// the resolver but resolves to a dict without tags (`Some(Dict::new())`).
 pub struct Recs {
     pub recs: Vec<Dict>,
 }
@@ -71,8 +72,12 @@ impl PathResolver for Recs {
         Value::Null
     }
     fn resolve_ref(&self, reference: &Ref) -> Option<Dict> {
-        self.recs.iter().find(|d| d.get_ref("id") == Some(reference)).cloned()
+        self.recs.iter().find(|d| d.get_ref("id") == Some(reference)).map(|d| if is_blank(d) { Dict::new() } else { d.clone() })
     }
+}
+
+pub fn is_blank(d: &Dict) -> bool {
+    d.has_marker("blank")
 }
 
 /// the C entry point; `Some(printed filter)` when it returned one (which is destroyed here)
@@ -149,11 +154,19 @@ pub fn deep_text(n: usize, shape: &str) -> String {
         "quote" => format!("a == {}", rep("\"")),
         "rel" => format!("{}a", rep("a? ")),
         "ws" => format!("{}a", rep(" \n")),
+        // closed groups beside the open ones: the depth has to come back exactly after each group
+        "siblings" => format!("{}a", rep("(a) and ")),
+        "siblings_or" => format!("{}(a)", rep("(a or b) or ")),
+        "sib_and" => format!("{}a{}", rep("(a) and ("), rep(")")),
+        "sib_or" => format!("{}a{}", rep("(a and b) or ("), rep(")")),
+        "sib_nested" => format!("{}a{}", rep("((a)) and ("), rep(")")),
+        "sib_bad" => format!("{}a{}", rep("(a and) or ("), rep(")")),
+        "pairs" => format!("{}a", rep("((a)) and ")),
         _ => rep("a"),
     }
 }
 pub const SHAPES: &[&str] = &[
-    "open", "balanced", "spaced", "close", "not", "and", "or", "andor", "path", "group_and", "group_or", "cmp", "sym", "minus", "lt", "quote", "rel", "ws", "id",
+    "open", "balanced", "spaced", "close", "not", "and", "or", "andor", "path", "group_and", "group_or", "cmp", "sym", "minus", "lt", "quote", "rel", "ws", "id", "siblings", "siblings_or", "sib_and", "sib_or", "sib_nested", "sib_bad", "pairs",
 ];
 
 fn walk_terms<'a>(o: &'a Or, f: &mut dyn FnMut(&'a Term)) {
@@ -314,7 +327,7 @@ pub fn exec(_label: &str, input: &str, out: &mut CaseOut) {
                             toks.push(recs.recs.len().to_string());
                             for r in &recs.recs {
                                 toks.push(ho_ref(r.get_ref("id")));
-                                toks.push((r.is_empty() as u8).to_string());
+                                toks.push(((r.is_empty() || is_blank(r)) as u8).to_string());
                                 vx::w_val(&cx.resolve_for_dict(r, &w.id), &mut toks);
                             }
                             out.req(toks.join(" "), format!("ok {}", got as u8));
@@ -403,6 +416,11 @@ pub fn records(rng: &mut Rng) -> Vec<Dict> {
             d.insert("a".into(), Value::Dict(inner));
         }
         recs.push(d);
+    }
+    if rng.chance(1, 4) {
+        // a record the resolver knows but hands out without tags
+        let k = rng.below(recs.len() as u64) as usize;
+        recs[k].insert("blank".into(), Value::Marker);
     }
     if rng.chance(1, 10) {
         // a second record with the same id; an empty record
@@ -513,8 +531,14 @@ pub fn generate(ctx: &mut Ctx) {
     let n = ctx.n(400, 50_000);
     for i in 0..n {
         let mut rng = ctx.rng.fork();
-        let recs = records(&mut rng);
+        let mut recs = records(&mut rng);
         let f = filters[(i as usize) % filters.len()];
+        if f.contains('?') {
+            // the relationship model reads one record list for subjects and for resolved refs
+            for r in recs.iter_mut() {
+                r.remove("blank");
+            }
+        }
         let mut toks: Vec<String> = vec!["ev".into(), vx::h(f), recs.len().to_string()];
         for r in &recs {
             vx::w_dict(r, &mut toks);
